@@ -927,6 +927,13 @@ def gen(tier, rng, shard, nshards):
             yield f"guard-multi{kmk}-cut", bytes(pre)[:6138 + 12 * kmk - 5]
             payload, _ = guard_payload(rng, prefix=bytes(pre))
             yield f"guard-multi{kmk}-valid", payload
+        # a fake marker in the first 6138 bytes in front of a valid protected area: must be skipped, the area behind it recovered
+        # (a negative seek here shows as ValueError on BytesIO, i.e. only this case tells it from "nothing found" there)
+        pre = bytearray(calm(bytearray(H17.dos_header() + C.rbytes(rng, 104))))
+        pre[120:132] = H17.fake_marker(rng)
+        payload, _ = guard_payload(rng, prefix=bytes(pre))
+        for rep in range(4):                                   # one per file kind
+            yield f"guard-early-marker-valid{rep}", payload
         # area with odd guard configurations
         key = H17.make_key(rng, 4)
         cfg, _ = H17.make_cfg(rng, 60)
